@@ -107,6 +107,10 @@ func ZZBecomeLeader(n, c, rf int) {
 	} else {
 		vReach("refused")
 		vAssert("not-serving-after-failed-election", lc.status != proto.ServingStatus_LEADER)
+		// an election that does not complete must not apply the uncommitted tail: another leader may still
+		// truncate it, and a DB commit offset ahead of the log would make this node skip the replacements
+		co, _ := lc.db.ReadCommitOffset()
+		vAssert("failed-election-applies-nothing", co == int64(c) && m.commits == commitsBefore)
 	}
 	vReach("end")
 }
